@@ -48,12 +48,30 @@ def gen_plan(c, schema):
     plan["tr_engine"] = c.maybe(25)
     plan["tr_object"] = c.maybe(30)
     plan["custom_default_resolver"] = c.maybe(25)
+    # concurrency options must not change anything observable (C08 explores schedules; here only the options vary)
+    kw = {}
+    if c.maybe(30):
+        kw["coerce_parent_concurrently"] = c.maybe(50)
+    if c.maybe(30):
+        kw["coerce_list_concurrently"] = c.maybe(50)
+    plan["engine_kwargs"] = kw
+    plan["inherit_parent_concurrency"] = c.maybe(50)
+    plan["concurrency"] = {}
+    if c.maybe(40):
+        for tn, td in schema["types"].items():
+            if td["kind"] == "OBJECT":
+                for fn in td["fields"]:
+                    if c.maybe(25):
+                        plan["concurrency"]["%s.%s" % (tn, fn)] = {"list": c.choice([None, True, False]), "parent": c.choice([None, True, False])}
     return plan
 
 
-def pick_operation(c, doc):
+def pick_operation(c, doc, only_type=None):
     ops = [d for d in doc["defs"] if d["k"] == "op"]
-    op = c.choice(ops)
+    if only_type:
+        op = c.choice([d for d in ops if d["type"] == only_type])
+    else:
+        op = c.choice(ops)
     if len(ops) == 1 and (op.get("name") is None or c.maybe(50)):
         return op, None
     return op, op["name"]
@@ -65,10 +83,10 @@ def build_schema(c, schema_opts=None):
     return schema, plan
 
 
-def build_request(c, schema, plan, doc_opts=None):
+def build_request(c, schema, plan, doc_opts=None, only_type=None):
     dg = DocGen(c, schema, doc_opts)
     doc = dg.document()
-    op, opname = pick_operation(c, doc)
+    op, opname = pick_operation(c, doc, only_type)
     variables = dg.variable_values(op)
     spec = {"schema": schema, "plan": plan, "doc": doc, "op": opname, "variables": variables, "tree": None}
     return spec, dg.stats
@@ -90,7 +108,7 @@ def reference(spec, chooser=None):
 async def make_harness(schema, plan, engine_kwargs=None, gate=None):
     clean_registry()
     h = Harness(schema, plan, None, gate=gate)
-    await h.build(**(engine_kwargs or {}))
+    await h.build(**(engine_kwargs if engine_kwargs is not None else (plan.get("engine_kwargs") or {})))
     return h
 
 
